@@ -52,7 +52,28 @@ def world_size(case: Dict[str, Any]) -> int:
     return max(len(case["ranks"]), 1 + max(int(rd["rank"]) for rd in case["ranks"]))
 
 
+def scale_to_sub_microsecond(case: Dict[str, Any], k: int = 4) -> Dict[str, Any]:
+    """Generator dimension 'unrounded': every stamp and duration of an integer-grid case divided by k (a power of two, so
+    all arithmetic on the results stays exact in doubles) and the case marked to be loaded with HTA_DISABLE_NS_ROUNDING=1,
+    HTA's documented option that keeps nanosecond-resolution stamps as they are.  The time columns of the loaded frames are
+    then doubles with fractional parts, every model sees the same fractional values."""
+    for rd in case["ranks"]:
+        for e in rd["events"]:
+            if isinstance(e.get("ts"), int):
+                e["ts"] = e["ts"] / k
+            if isinstance(e.get("dur"), int):
+                e["dur"] = e["dur"] / k
+    case["unrounded"] = True
+    return case
+
+
 def write_case(case: Dict[str, Any], directory: str) -> Dict[int, str]:
+    # the rounding option is read by HTA from the environment at parse time; it is owned by the case (set or cleared
+    # before every load, so nothing leaks from one case to the next)
+    if case.get("unrounded"):
+        os.environ["HTA_DISABLE_NS_ROUNDING"] = "1"
+    else:
+        os.environ.pop("HTA_DISABLE_NS_ROUNDING", None)
     world = world_size(case)
     fmts = case.get("fmt", "json")
     out: Dict[int, str] = {}
